@@ -372,6 +372,47 @@ def simdI64 (f : AggFn) (sel : List Value) : Except Err Res :=
       | .max => .val (.int mx)
       | .count => .val (.int n))
 
+/-! The streaming structure of `simd_aggregate_i64` / `simd_aggregate_f64`: the non-NULL
+qualifying values are pushed into a buffer; a full buffer (`BATCH_SIZE` = 1024 values) is flushed
+into the running state, and a non-empty buffer is flushed once more after the loop.  `simdStep`
+above is the same computation without the buffer (`C03_simd_batches_*` prove the two equal). -/
+
+def simdBatchSize : Nat := 1024
+
+def batchLoop {σ : Type} (B : Nat) (flush : σ → List Int → σ) : List Int → List Int → σ → σ
+  | [], buf, st => if buf.isEmpty then st else flush st buf
+  | x :: xs, buf, st =>
+      if B ≤ (buf ++ [x]).length then batchLoop B flush xs [] (flush st (buf ++ [x]))
+      else batchLoop B flush xs (buf ++ [x]) st
+
+/-- `simd_sum_i64`: chunks of 4 lanes, then the scalar remainder -/
+def simdSumI64 : List Int → Int
+  | a :: b :: c :: d :: rest => (a + b + c + d) + simdSumI64 rest
+  | rest => rest.foldl (· + ·) 0
+
+/-- `sum += simd_sum_i64(&batch)` -/
+def flushSum (st : Int) (batch : List Int) : Int := st + simdSumI64 batch
+
+/-- `simd_min_i64` / `simd_max_i64`: `None` on an empty batch -/
+def batchMin : List Int → Option Int
+  | [] => none
+  | x :: xs => some (xs.foldl (fun m i => if i < m then i else m) x)
+
+def batchMax : List Int → Option Int
+  | [] => none
+  | x :: xs => some (xs.foldl (fun m i => if m < i then i else m) x)
+
+/-- `if let Some(batch_min) = simd_min_i64(&batch) { min = min.min(batch_min) }` -/
+def flushMin (st : Int) (batch : List Int) : Int :=
+  match batchMin batch with
+  | some m => if m < st then m else st
+  | none => st
+
+def flushMax (st : Int) (batch : List Int) : Int :=
+  match batchMax batch with
+  | some m => if st < m then m else st
+  | none => st
+
 /-- `compare_for_min_max(a, b)`: a < b -/
 def lessForMinMax (a b : Value) : Bool := cmpSql a b == .lt
 
